@@ -149,6 +149,11 @@ package netceptor
 //@   requires s != nil
 //@   site call Marshal THEMESSAGE: [C16] requires arg0 == box(message)
 //@   site call sendMessage TOSOURCE: [C16 C10] requires arg1 == "unreach" && arg2 == toNode && arg3 == "unreach" && arg4 == lastcall("Marshal", 0) && lastcall("Marshal", 1) == nil
+// every notice asked for is handed to sendMessage: the only way out without a send is a failed encoding (no suppression,
+// no rate limit - the sender's socket filters notices by its own service, so a notice withheld here is lost for good)
+//@   ghostflag sent set call:sendMessage
+//@   ensures NOTICESENT: [C16 C10] result == nil ==> flag("sent")
+//@   ensures ONLYENCODINGFAILS: [C16 C10] flag("sent") || lastcall("Marshal", 1) != nil
 
 //@ func (*Netceptor).dispatchReservedService
 //@   tags C07
